@@ -602,6 +602,17 @@ def check_case(col, inp, L, R, lp, rp, inidir, status_check="fast"):
                 if nm is not None:
                     name, chain = nm, ch
                     break
+            # global root causes first: a local symptom name (null vs container, empty pair, ...) says nothing
+            # when the verdict hinges on a duplicated identity value or on order INSIDE an element compared whole
+            if name != "bool-int-conflated" and group == "iff" and f["clause"] == "equal-but-entry" and not f.get("identical"):
+                if aoh in ("key", "deep"):
+                    if idkey_issues is None:
+                        idkey_issues = spec.identity_key_issues(lp, rp, aoh_key)
+                    if "duplicate" in idkey_issues and "bool-int" not in idkey_issues:
+                        name = "key-sync-identity-value-duplicated"
+                if name != "key-sync-identity-value-duplicated" and (
+                        not spec.data_equal(lp, rp, arrays, laoh, aoh_key, whole_unit="plain") or _nested_reorder(lp, rp, arrays, laoh)):
+                    name = "reordered-sequence-nested-in-synchronised-element"
             if name is None and aoh in ("key", "deep") and group in ("iff",):
                 if idkey_issues is None:
                     idkey_issues = spec.identity_key_issues(lp, rp, aoh_key)
